@@ -44,6 +44,9 @@ theorem layout_ascii : GLayout Gen.asciiL :=
 
 theorem vocab_ascii : vocabFactsB Gen.asciiL = true := by decide +kernel
 
+/-- README.en.md publishes the same grammar as README.md (both ```pest blocks are re-translated on every run) -/
+theorem readme_en_same : Gen.readmeRulesEn = Gen.readmeRules := by decide +kernel
+
 /-- **C11**, grammar-side hypotheses -/
 theorem ascii_conforms (v : LNarsese) (h : gValOKB Gen.asciiL v = true) :
     Reads Gen.readmeGrammar (Gen.asciiL.fmtNarsese v) v :=
